@@ -9,6 +9,7 @@ CONSTANTS
   Watch = "none"
   AncVals = {"nil", "A", "B"}
   Fulls = {FALSE}
+  InitDisks = {"A", "E"}
   Variant = "dropAgain"
 SPECIFICATION Spec
 INVARIANTS
@@ -18,4 +19,5 @@ INVARIANTS
   C21_EndpointsAgree
   C21_NoResidue
   C21_BaselineChain
+  C21_BaselineConsistent
 CHECK_DEADLOCK TRUE
